@@ -379,6 +379,9 @@ def headersStep (x : HSt) : M (Step HSt (Sock × Dic)) :=
     let c0 ← at? r.1 0
     if cIsSpace c0 then
       -- continuation line (obs-fold): joined to the field's accumulated value with one space; an empty one is ignored
+      -- before any field there is nothing to continue (fix c2e6d14): like an invalid field name
+      if x.name.length == 0 then pure (.done ({ r.2 with closed := true }, x.h))
+      else
       let more := trimmed r.1
       if more.length == 0 then pure (.next { x with s := r.2 })
       else
